@@ -231,31 +231,38 @@ Definition parse_header (hdr : list Z) (e0 : Z) : Z * bool :=
 
 Definition padding : list Z := repeat 0 (Z.to_nat 66300).   (* memory after the segment in the harness arena (old code only) *)
 
-(* supla_esp_update_recv_cb *)
+(* supla_esp_update_recv_cb, first part: header collection while http_header_matched == 0;
+   result: state, outputs, number of bytes of the segment that belong to the header *)
+Definition recv_header (s : st) (seg : list Z) : st * list out * Z :=
+  if matched s =? 0 then
+    let '(rh, m, off) := scan (rhdr s) seg 0 in
+    if m =? 1 then
+      let '(e, dl) := parse_header (rev rh) (expected s) in
+      (mkst (started s) (halted s) (fl s) (fails s) (awo s) rh 1 (len rh) e (if dl then 0 else downloaded s)
+            dl (buf s) (bufnull s) (got s),
+       if dl then [OFlag FLAG_START] else [], off)
+    else
+      (mkst (started s) (halted s) (fl s) (fails s) (awo s) rh m (len rh) (expected s) (downloaded s)
+            (downloading s) (buf s) (bufnull s) (got s), [], off)
+  else (s, [], 0).
+Definition reset_hlen (s : st) : st :=
+  mkst (started s) (halted s) (fl s) (fails s) (awo s) (rhdr s) (matched s) 0 (expected s)
+       (downloaded s) (downloading s) (buf s) (bufnull s) (got s).
+(* second part, update_step == DOWNLOADING: download, then the completion test *)
+Definition recv_body (s1 : st) (content : list Z) : st * list out :=
+  let '(s2, o2, ok) := download s1 content in
+  let s3 := reset_hlen s2 in
+  if downloaded s3 =? expected s3 then
+    let '(s4, o3) := verify_and_reboot s3 in (s4, o2 ++ o3)
+  else (s3, o2).
 Definition recv (s : st) (seg : list Z) : st * list out :=
   if (len seg =? 0) || (65535 <? len seg) then (s, []) else
-  let '(s1, o1, off) :=
-    if matched s =? 0 then
-      let '(rh, m, off) := scan (rhdr s) seg 0 in
-      if m =? 1 then
-        let '(e, dl) := parse_header (rev rh) (expected s) in
-        (mkst (started s) (halted s) (fl s) (fails s) (awo s) rh 1 (len rh) e (if dl then 0 else downloaded s)
-              dl (buf s) (bufnull s) (got s),
-         if dl then [OFlag FLAG_START] else [], off)
-      else
-        (mkst (started s) (halted s) (fl s) (fails s) (awo s) rh m (len rh) (expected s) (downloaded s)
-              (downloading s) (buf s) (bufnull s) (got s), [], off)
-    else (s, [], 0) in
+  let '(s1, o1, off) := recv_header s seg in
   if downloading s1 then
     let content :=
       if fx_offset fx then drop off seg
       else take (u16 (len seg - hlen s1)) (drop (hlen s1) (seg ++ padding)) in
-    let '(s2, o2, ok) := download s1 content in
-    let s3 := mkst (started s2) (halted s2) (fl s2) (fails s2) (awo s2) (rhdr s2) (matched s2) 0 (expected s2)
-                   (downloaded s2) (downloading s2) (buf s2) (bufnull s2) (got s2) in
-    if downloaded s3 =? expected s3 then
-      let '(s4, o3) := verify_and_reboot s3 in (s4, o1 ++ o2 ++ o3)
-    else (s3, o1 ++ o2)
+    let '(s4, o) := recv_body s1 content in (s4, o1 ++ o)
   else (s1, o1).
 
 (* supla_esp_update_disconnect_cb / reconnect_cb *)
@@ -285,6 +292,33 @@ Fixpoint run_from (s : st) (evs : list event) : st * list out :=
   | e :: t => let '(s1, o1) := step s e in let '(s2, o2) := run_from s1 t in (s2, o1 ++ o2)
   end.
 End Model.
+
+(* ---------- vocabulary of the property statements (no proofs here) ---------- *)
+Definition ev_ok (e : event) : Prop := match e with Seg b => bytes_ok b | _ => True end.
+Definition isflash (o : out) : Prop := match o with OErase _ | OWrite _ _ => True | _ => False end.
+(* a flash operation lies inside [B, B+E): erases are whole sectors that start inside it, writes end inside it *)
+Definition opok (B E : Z) (o : out) : Prop :=
+  match o with
+  | OErase a => B <= a /\ a mod SEC_SIZE = 0 /\ a < B + E
+  | OWrite a d => B <= a /\ a + len d <= B + E
+  | _ => False
+  end.
+(* outputs that decide nothing about the boot selection *)
+Definition benign (o : out) : Prop :=
+  match o with OBase _ | ONoUpdate | OErase _ | OWrite _ _ => True | OFlag f => f = FLAG_START | _ => False end.
+(* the ways an update cycle ends *)
+Inductive halting_tail : list out -> Prop :=
+| HT_finish b sg : halting_tail [OVerify b sg true; OFlag FLAG_FINISH; OUpgradeReboot]
+| HT_idle : halting_tail [OFlag FLAG_IDLE; ORestart]
+| HT_verify_idle b sg : halting_tail [OVerify b sg false; OFlag FLAG_IDLE; ORestart]
+| HT_fail : halting_tail [OFlag FLAG_IDLE; OFlag FLAG_IDLE; ORestart]                    (* MAX_FLASH_ATTEMPTS failures *)
+| HT_fail_idle : halting_tail ([OFlag FLAG_IDLE; OFlag FLAG_IDLE; ORestart] ++ [OFlag FLAG_IDLE; ORestart])
+| HT_fail_fault : halting_tail ([OFlag FLAG_IDLE; OFlag FLAG_IDLE; ORestart] ++ [OFault]).
+Definition is_digit (c : Z) : Prop := 48 <= c <= 57.
+Fixpoint dec (ds : list Z) (acc : Z) : Z := match ds with [] => acc | d :: t => dec t (acc * 10 + (d - 48)) end.
+(* where the SDK keeps the two firmware images (ESP8266 non-OS SDK flash maps) *)
+Definition sdk_user1 : Z := 4096.
+Definition sdk_user2 (m : Z) : Z := if (2 <=? m) && (m <=? 4) then 528384 else 1052672.   (* 0x81000 / 0x101000 *)
 
 (* ---------- wire format of the correspondence harness ---------- *)
 (* checksum printed by the harness doubles: s = s*31 + b (mod 2^32) *)
